@@ -19,7 +19,11 @@ echo "== demo on unmodified tree (must pass)" >> $log
 cargo test --offline --test $dn >> $log 2>&1; r_clean=$?
 git apply $SRC/patch.diff >> $log 2>&1 || { echo "patch does not apply" >> $log; r_apply=1; }
 echo "== lib suite with change (must pass, shared_smoke flaky tolerated)" >> $log
-cargo test --lib --offline 2>&1 | grep -E "^test result|FAILED|failed" >> $log; 
+cargo test --lib --offline 2>&1 | grep -E "^test result|FAILED|failed" >> $log
+if grep -qE "^test .*shared_smoke .*FAILED" $log && [ $(grep -cE "^test .* FAILED" $log) -eq 1 ]; then
+  echo "(only the known-flaky shared_smoke failed; re-running lib suite once)" >> $log
+  cargo test --lib --offline 2>&1 | grep -E "^test result" >> $log
+fi
 fails=$(grep -E "^test .* FAILED" $log | grep -v shared_smoke | wc -l)
 libres=$(grep -E "^test result" $log | tail -1)
 echo "== doc tests with change" >> $log
